@@ -157,6 +157,13 @@ impl C11 {
                     ctx.violation(&format!("decode:{}", sig), witness(bad.join("; ")));
                 }
                 ctx.nontrivial(hash_bytes(&bytes));
+                // M6b: every other way of consuming the tag iterator (and clones of it)
+                // sees the same tags
+                if let Out::Val(Ok(h)) = catch(|| unsafe { Multiboot2Header::load(reg.ptr().cast::<Multiboot2BasicHeader>()) }) {
+                    let key = |t: &multiboot2_common::DynSizedStructure<multiboot2_header::HeaderTagHeader>| (t as *const _ as *const u8 as usize, core::mem::size_of_val(t));
+                    crate::iterproto::check(ctx, "header-tags", &|| h.iter(), &key, 4096, true);
+                    crate::iterproto::check_clone(ctx, "header-tags", &|| h.iter(), &key, 4096);
+                }
             }
         }
         if ctx.want_sample() && tags.len() >= 4 {
